@@ -570,7 +570,7 @@ impl<'a> Link<'a> {
                                     if rng.ratio(1, 4) {
                                         None
                                     } else {
-                                        Some((v + 1 + rng.below(3) as u8) % 10)
+                                        Some(((v as u32 + 1 + rng.below(3) as u32) % 10) as u8)
                                     }
                                 }
                                 None => Some(rng.below(10) as u8),
